@@ -40,6 +40,8 @@ type WorkerReport struct {
 	Leaked      int            `json:"leaked_bubbles"`
 	Known       map[string]int `json:"known"`
 	ForeignEx   []string       `json:"foreign_examples"`
+	Rechecked   int            `json:"rechecked"`        // runs executed a second time from the same seed
+	RecheckSame int            `json:"recheck_same_log"` // ... of which the event log was identical
 }
 
 type knownFinding struct {
@@ -270,6 +272,15 @@ func WorkerMain(t *testing.T, worldName string, world World) {
 				ev = ev[:40]
 			}
 			rep.Samples = append(rep.Samples, Sample{RunIndex: i, Seed: seed, Desc: res.Desc, Events: ev, Progress: res.Progress})
+		}
+		// determinism sample: every 64th run is executed again from the same seed; the share of identical
+		// event logs is reported (worlds exposed to runtime coins are expected to be below 100%)
+		if i%64 == 0 && res.Violation == nil && len(res.Foreign) == 0 {
+			again := world(t, prop, tier, NewChoices(seed), false)
+			rep.Rechecked++
+			if again.LogHash == res.LogHash {
+				rep.RecheckSame++
+			}
 		}
 		if res.Violation != nil && isKnown(res.Violation) {
 			rep.Known[res.Violation.Signature()]++
